@@ -51,6 +51,7 @@ def run(ctx):
             open(path, 'w').write(body)
         targets.append('c04_part%02d.nsan' % k)
     exes = ctx.build(targets, timeout=3000)
+    eqexe, = ctx.build(['c04_imgeq.nsan'])
     ctx.mc('MC_PixelAlgo', 'MC_PixelAlgo_%s.cfg' % ctx.tier)
     traces = [ptrace]
     t0 = __import__('time').time()
@@ -61,10 +62,13 @@ def run(ctx):
     with ThreadPoolExecutor(max_workers=vlib.NCPU) as ex:
         traces += list(ex.map(rec, range(len(exes))))
     vlib.log('[record] %d driver parts, %.1f MB, %.1fs' % (len(exes), sum(os.path.getsize(t) for t in traces) / 1e6, __import__('time').time() - t0))
+    traces += ctx.record(eqexe, [], shards=2, name='trace-imgeq')
     ctx.validate('Trace_PixelAlgo', traces, timeout=3000)
     def k(ev):
         if ev['e'] == 'Algo' and ev['w'] * ev['h'] > 0:
             return (ev['algo'], ev['case'], ev['sshape'], ev['dshape'], ev['w'], ev['h'], ev.get('px', -1), ev.get('py', -1))
+        if ev['e'] == 'ImgEq':
+            return ('imgeq', ev['type'], ev['w1'], ev['h1'], ev['w2'], ev['h2'], ev['variant'])
         if ev['e'] == 'Compiles':
             return ('compiles', ev['case'])
         return None
